@@ -235,6 +235,10 @@ type Verdict struct {
 	At       int  // offset of the failure
 	Tag      byte // UNKNOWN: the tag
 	DontCare bool // an unknown element/key/value tag of an empty container was met (accept or reject both fine)
+	// BigDeclared is the largest positive byte count any header on the walked path declared
+	// (string length; element count x fixed element size, or the bare count for variable-size
+	// elements): what a skipper that buffers what it skips may try to allocate.
+	BigDeclared int64
 }
 
 type frame struct {
@@ -252,8 +256,14 @@ func Parse(b []byte, t byte) Verdict {
 	var stack []frame
 	maxDepth := 0
 	dontCare := false
+	var big int64
+	declare := func(n int64) {
+		if n > big {
+			big = n
+		}
+	}
 	fail := func(kind int, at int, tag byte) Verdict {
-		return Verdict{Kind: kind, At: at, Tag: tag, Depth: len(stack), MaxDepth: maxDepth, DontCare: dontCare}
+		return Verdict{Kind: kind, At: at, Tag: tag, Depth: len(stack), MaxDepth: maxDepth, DontCare: dontCare, BigDeclared: big}
 	}
 	need := func(n int) bool { return len(b)-pos >= n }
 	u32 := func(p int) uint32 {
@@ -280,6 +290,7 @@ func Parse(b []byte, t byte) Verdict {
 				return &v
 			}
 			pos += 4
+			declare(int64(n))
 			if !need(int(n)) {
 				v := fail(Truncated, pos, 0)
 				return &v
@@ -306,6 +317,11 @@ func Parse(b []byte, t byte) Verdict {
 			if n == 0 && (!Known(kt) || !Known(vt)) {
 				dontCare = true
 			}
+			if ks, vs := FixedSize(kt), FixedSize(vt); ks > 0 && vs > 0 {
+				declare(int64(n) * int64(ks+vs))
+			} else {
+				declare(int64(n))
+			}
 			f := &stack[len(stack)-1]
 			f.kt, f.vt, f.remain = kt, vt, int64(n)
 			return nil
@@ -327,6 +343,11 @@ func Parse(b []byte, t byte) Verdict {
 			pos += 5
 			if n == 0 && !Known(et) {
 				dontCare = true
+			}
+			if es := FixedSize(et); es > 0 {
+				declare(int64(n) * int64(es))
+			} else {
+				declare(int64(n))
 			}
 			f := &stack[len(stack)-1]
 			f.kt, f.remain = et, int64(n)
@@ -391,7 +412,7 @@ func Parse(b []byte, t byte) Verdict {
 			}
 		}
 	}
-	return Verdict{Kind: OK, Len: pos, Depth: maxDepth, MaxDepth: maxDepth, DontCare: dontCare}
+	return Verdict{Kind: OK, Len: pos, Depth: maxDepth, MaxDepth: maxDepth, DontCare: dontCare, BigDeclared: big}
 }
 
 // --- scalars -----------------------------------------------------------------------------
